@@ -210,7 +210,7 @@ Ltac kp s :=
   | |- keeps ?s0 (put_op ?s1 ?o ?q) =>
       apply (keeps_trans s0 s1);
       [ | first [ apply keeps_put_op_fresh; [ cbn; fresh_op s o | unfold holding; cbn; intros [? ?]; first [discriminate | lia] ]
-                | eapply keeps_put_op_upd; [ cbn; eassumption | unfold holding; cbn; auto ] ] ]; kp s
+                | eapply keeps_put_op_upd; [ cbn; eassumption | unfold holding; cbn; first [ solve [auto] | intros [? ?]; discriminate ] ] ] ]; kp s
   | |- keeps ?s0 (cancel_slot ?s1 _) => apply (keeps_trans s0 s1); [ | apply keeps_cancel_slot ]; kp s
   | |- keeps ?s0 (set_handles _ ?s1) => fail
   | |- keeps ?s0 (set_joins _ ?s1) => apply (keeps_trans s0 s1); [ | apply keeps_same; reflexivity ]; kp s
